@@ -283,9 +283,11 @@ def run_c16(prop, tier, replay=None):
         random.Random(A.SEED).shuffle(st3)
         styles += st3[:120]
     decor = [A.toktext(json.loads(l)["toks"]) for l in open(A.corpus("DECOR"))]
+    replay_is_filter = False
     if replay:
         rp = json.load(open(replay))
-        bases = [rp["record"]]
+        replay_is_filter = rp.get("record", {}).get("cls") == "filter" or rp.get("filter")
+        bases = [] if replay_is_filter else [rp["record"]]
     else:
         bases = c16_bases(tier)
     jobs, meta = [], {}
@@ -337,6 +339,29 @@ def run_c16(prop, tier, replay=None):
             ev["vars"].append(v)
         events.append(ev)
     failures, others, judged = judge(prop, events, module="StyleTrace")
+    # the filter as a function: clauses proved on the model, evaluated on the code's function, model and code compared (spec/AsmFilter.tla)
+    finfo = None
+    if not replay or replay_is_filter:
+        import filtcheck
+        fbad, fjudged, finfo = filtcheck.run(tier, random.Random(A.SEED + 16))
+        fdrift = collections.Counter()
+        for k, (text, reason) in enumerate(fbad):
+            if reason.startswith("mech:") or reason.startswith("driver:"):
+                fdrift[reason] += 1
+                if fdrift[reason] <= 2:
+                    A.write_replay(prop, "drift-filter-%d" % k, {"filter": True, "text_hex": text.hex(), "reason": reason})
+                if reason.startswith("driver:"):
+                    raise A.Infra("filter stage: " + reason)
+                continue
+            p_, r_ = reason.split(":", 1)
+            failures.append(({"id": "filter-%d" % k, "prop": p_, "status": "Unconstrained", "text": text.decode("latin-1"), "cls": "filter"}, r_,
+                             {"opt": -1, "ctx": "filter", "mode": "plain", "prop": p_}))
+            if p_ != prop:
+                others[reason] += 1
+        for r_, n_ in fdrift.items():
+            print("MODEL-DRIFT: %s (%d strings): the line filter no longer computes the function of spec/AsmFilter.tla although no clause failed on the observed function" % (r_, n_))
+        finfo["model_drift"] = dict(fdrift)
+        judged += fjudged
     nvars = sum(len(e["vars"]) for e in events)
     # detail.ctx carries the style key
     kf, viol = triage(prop, failures)
@@ -347,4 +372,8 @@ def run_c16(prop, tier, replay=None):
                   [("STYLES2%s x %d representative lines + %d decorated programs" % ("+STYLES3 sample" if tier == "thorough" else "", len(bases), len(progs)), "solo0", "plain", nvars)],
                   False, others, replay,
                   rule_extra=" For C16 a case is one (line or program, style) pair: spec/StyleTrace.tla requires the outcome (return value and bytes) under every option combination to equal "
-                             "that of the canonical spelling; styles are all elements of StyleDims that differ from the canonical style in at most two dimensions.")
+                             "that of the canonical spelling; styles are all elements of StyleDims that differ from the canonical style in at most two dimensions. "
+                             "In addition spec/AsmFilter.tla: TLC proves the lexical clauses (blanks before the mnemonic and after its separator, letter case, text after ; % CR LF, bytes above "
+                             "0x7e, kept length) for the model filter on every string of length <= N over a 16- (quick, N = 4) or 11-symbol (thorough, N = 5) alphabet, evaluates the same clauses on "
+                             "the function the real filter computes on that whole domain (Filtered hook) and compares model and code string by string (plus boundary-length and random lines)."
+                  + (" Filter stage: %s." % json.dumps(finfo) if finfo else ""))
